@@ -107,7 +107,8 @@ def native_check(seed=0, trees=60, depth=6):
             fails.append(("non-linear combination accepted", None))
         except ValueError:
             pass
-    for bad in (lambda: SigmaX() + "a", lambda: SigmaX() * None, lambda: [1] + SigmaZ() if False else SumObservable([1], SigmaZ())):
+    for bad in (lambda: SigmaX() + "a", lambda: SigmaX() * None, lambda: SigmaX() * "2", lambda: "2" * SigmaX() if False else ProdObservable("2", SigmaX()),
+                lambda: SumObservable(SigmaZ(), b"3"), lambda: [1] + SigmaZ() if False else SumObservable([1], SigmaZ())):
         try:
             bad()
             fails.append(("non-numeric operand accepted", None))
